@@ -1003,6 +1003,22 @@ pub fn random_spec(col: &Collections, family: &str, n: usize, rng: &mut Rng) -> 
             }
             s
         }
+        "saftvrmie-crossassoc" => {
+            // >= 2 associating components: the iterative cross-association solver of SAFT-VR Mie
+            if n < 2 {
+                return None;
+            }
+            let assoc_vr: Vec<&Shipped> = col.vrmie.iter().filter(|s| s.record["model_record"].get("epsilon_k_ab").is_some()).collect();
+            let pool: Vec<&Shipped> = col.vrmie.iter().collect();
+            let mut pure = pick_n(rng, &assoc_vr, 2);
+            pure.extend(pick_n(rng, &pool, n - 2));
+            rng.shuffle(&mut pure);
+            let mut s = Spec::new(Kind::SaftVRMie, pure);
+            if rng.bool(0.5) {
+                s.binary = Some(kij_matrix(rng, n, |k| json!({"k_ij": k, "gamma_ij": k * 0.5}), -0.05, 0.08));
+            }
+            s
+        }
         "saftvrqmie" => {
             let pool: Vec<&Shipped> = col
                 .vrq
@@ -1053,6 +1069,7 @@ pub const EOS_FAMILIES: &[&str] = &[
     "uv-bh",
     "uv-b3",
     "saftvrmie",
+    "saftvrmie-crossassoc",
     "saftvrqmie",
 ];
 
